@@ -1,7 +1,7 @@
 CONSTANTS
   Core = FALSE
   Long = TRUE
-  Escs = {92, 33}
+  Escs = {92}
 INIT SInit
 NEXT SNext
 INVARIANT ModelOK
